@@ -4,6 +4,7 @@ EXTENDS PortView
 R(n, h, s) == [name |-> n, hw |-> h, st |-> s]
 Names2 == {"a", "b"}
 Names3 == {"a", "b", "c"}
+Hws1 == {"A"}
 Hws2 == {"A", "B"}
 Hws3 == {"A", "B", "C"}
 St1 == {0}
@@ -15,6 +16,7 @@ PHws == {"A", "B", "C", "ZZ"}
 Init2 == { <<None, None>>,
            <<R("a", "A", 0), R("b", "B", 0)>>,
            <<R("a", "A", 0), R("a", "A", 0)>> }
+Init2h == { <<None, None>>, <<R("a", "A", 0), R("b", "A", 0)>> }
 \* over 3 port numbers: empty, plain, duplicates of name and of address, a gap
 Init3 == { <<None, None, None>>,
            <<R("a", "A", 0), R("b", "B", 0), None>>,
